@@ -147,6 +147,9 @@ def plan_decode(tier, shard, nshards):
     out += [(i + "/max", ident_strategy(i, "max"), 2 if tier == "quick" else 20) for i in ids]
     if "1029" in ids:
         out.append(("1029/unicode", unicode_1029(), 30 if tier == "quick" else 600))
+    if "4076_201" in ids:
+        # all 256 combinations of the degree and order fields, the order above the degree too (C03 quantifies over all field values)
+        out.append(("4076_201/anyorder", ident_strategy("4076_201", "anyorder"), 120 if tier == "quick" else 2000))
     return out
 
 
